@@ -124,6 +124,7 @@ type evaluator struct {
 	hadFiles       bool
 	inputDone      bool
 	inGetline      bool
+	getlineFailed bool // the last plain getline reached an operand file that could not be opened
 
 	rnd      *rand.Rand
 	randSeed float64
